@@ -239,6 +239,64 @@ func C14(tier string) int {
 		}
 	}
 
+	// ---- (1c) ONE resolver value reused for a sequence of different values (a resolver keeps no state) ----
+	for _, v := range keys {
+		other := "ActivityStreams/Note"
+		if v == other {
+			other = "ActivityStreams/Person"
+		}
+		tv := o.Types[v]
+		log := &cbLog{}
+		cbs := []interface{}{mkCallback(log, 0, bind.Type(v), errA), mkCallback(log, 1, bind.Type(other), nil)}
+		jr, err1 := streams.NewJSONResolver(cbs...)
+		tr, err2 := streams.NewTypeResolver(cbs...)
+		if err1 != nil || err2 != nil {
+			continue
+		}
+		type step struct {
+			key     string // value type ("" = a type no vocabulary defines)
+			wantIdx int
+			wantErr error
+		}
+		seq := []step{{v, 0, errA}, {other, 1, nil}, {"", -1, nil}, {v, 0, errA}, {"ActivityStreams/Tombstone", -1, nil}, {other, 1, nil}, {v, 0, errA}}
+		if v == "ActivityStreams/Tombstone" || other == "ActivityStreams/Tombstone" {
+			seq[4].key = "ActivityStreams/Place"
+		}
+		for si, st := range seq {
+			for _, which := range []string{"JSONResolver", "TypeResolver"} {
+				if which == "JSONResolver" && (tv.Typeless || (st.key != "" && o.Types[st.key].Typeless)) {
+					continue
+				}
+				if which == "TypeResolver" && st.key == "" {
+					continue
+				}
+				log.calls = nil
+				var rerr error
+				if which == "JSONResolver" {
+					doc := M{"@context": allContexts(o), "type": "Frobnicate", "id": "https://x.example/v"}
+					if st.key != "" {
+						doc = jsonDocFor(o, st.key)
+					}
+					rerr = jr.Resolve(ctx, jsonNorm(doc).(map[string]interface{}))
+				} else {
+					rerr = tr.Resolve(ctx, bind.Type(st.key).New())
+				}
+				res.Case(fmt.Sprintf("reused|%s|%s|%d", which, v, si))
+				ok := true
+				if st.wantIdx < 0 {
+					ok = len(log.calls) == 0 && streams.IsUnmatchedErr(rerr)
+				} else {
+					ok = len(log.calls) == 1 && log.calls[0].idx == st.wantIdx && rerr == st.wantErr
+				}
+				if !ok {
+					res.Violate("reused-resolver|"+which, fmt.Sprintf("one %s (callbacks for %s and %s) reused: call %d with a value of type %q invoked %v, err %v", which, v, other, si+1, st.key, log.calls, rerr),
+						M{"check": "C14", "resolver": which, "value_type": v, "step": si})
+					break
+				}
+			}
+		}
+	}
+
 	// ---- (2) callback lists of length 0..3 (thorough: 4) over a per-type alphabet ----
 	maxLen := 3
 	if res.Thorough() {
@@ -500,7 +558,7 @@ func C14(tier string) int {
 	}
 
 	res.Extra["types"] = len(keys)
-	res.Rule = fmt.Sprintf("(1) all %d x %d (value type, callback type) pairs for JSONResolver, TypeResolver and TypePredicatedResolver (predicate outcomes (true,nil),(false,nil),(false,err),(true,err); and a passing own-type predicate in front of a delegate that has no callback for the type); (2) for every value type all callback lists of length 0..%d over {own, own returning an error, a parent, a child, a sibling, a similarly named foreign type, a foreign type}; (3) all 'type' arrays of length 1..3 over {Note, Person, Emoji, an unknown name, an unknown prefixed name} x 6 callback sets, with ToType as cross-check; (3a) 12 'type' members that name no type (empty array, arrays of non-strings, number, null, object, boolean, empty string, wrong case): nothing invoked, unmatched error; (3b) every type written under 7 @context spellings (own vocabulary URI, the same with the other of http / https, in a list, aliased {URI: alias} alone / in a list / after another alias map / with a type array) through JSONResolver and ToType; (4) 13 wrong constructor shapes x 3 constructors; callbacks are manufactured with reflect.MakeFunc from the ontology-derived binding table; oracle: exactly the first own-type callback is invoked and its error returned by identity, else nothing is invoked and IsUnmatchedErr holds", len(keys), len(keys), maxLen)
+	res.Rule = fmt.Sprintf("(1) all %d x %d (value type, callback type) pairs for JSONResolver, TypeResolver and TypePredicatedResolver (predicate outcomes (true,nil),(false,nil),(false,err),(true,err); and a passing own-type predicate in front of a delegate that has no callback for the type); (1c) one JSONResolver / TypeResolver value reused for a sequence of 7 values of different types; (2) for every value type all callback lists of length 0..%d over {own, own returning an error, a parent, a child, a sibling, a similarly named foreign type, a foreign type}; (3) all 'type' arrays of length 1..3 over {Note, Person, Emoji, an unknown name, an unknown prefixed name} x 6 callback sets, with ToType as cross-check; (3a) 12 'type' members that name no type (empty array, arrays of non-strings, number, null, object, boolean, empty string, wrong case): nothing invoked, unmatched error; (3b) every type written under 7 @context spellings (own vocabulary URI, the same with the other of http / https, in a list, aliased {URI: alias} alone / in a list / after another alias map / with a type array) through JSONResolver and ToType; (4) 13 wrong constructor shapes x 3 constructors; callbacks are manufactured with reflect.MakeFunc from the ontology-derived binding table; oracle: exactly the first own-type callback is invoked and its error returned by identity, else nothing is invoked and IsUnmatchedErr holds", len(keys), len(keys), maxLen)
 	res.Assumptions = []string{"for a multi-valued 'type' the value's own type is the first entry that names a known type (ToType is required to agree)"}
 	return res.Finish()
 }
